@@ -70,6 +70,10 @@ func (r ResolveResult) clone() ResolveResult {
 // Targets computes the target addresses to attempt in preferred order.
 func (r ResolveResult) Targets(network string) iter.Seq[Target] {
 	address := func(ip net.IP, port uint16) netip.AddrPort {
+		// net.IP holds IPv4 addresses in 4 or 16 bytes.
+		if ip4 := ip.To4(); ip4 != nil {
+			ip = ip4
+		}
 		if (network == "tcp4" || network == "udp4") && len(ip) != 4 {
 			return netip.AddrPort{}
 		}
